@@ -61,7 +61,7 @@ func (p pos) String() string {
 
 type fault struct {
 	At   pos
-	Kind string // status400.., close, short-body, corrupt, substitute, empty, stall, cancel-caller, hook-fail, hook-cancels-caller
+	Kind string // status400.., close, short-body, corrupt, substitute, empty, stall, cancel-caller, hook-fail, hook-fail-and-stop, hook-cancels-caller
 }
 
 func (f fault) String() string { return f.At.String() + "!" + f.Kind }
@@ -127,12 +127,13 @@ func (rn *runner) attempt(h int, faults []fault) (res result) {
 	w, p, ch := rn.w, rn.p, rn.ch
 	p.ResetLog()
 	w.ResetHooks()
-	w.FailHookAt, w.CancelHookAt = -1, -1
+	w.FailHookAt, w.CancelHookAt, w.FailHookStop = -1, -1, false
 	badAddr := false
 	byPos := map[pos]string{}
 	for _, f := range faults {
-		if f.Kind == "hook-fail" {
+		if f.Kind == "hook-fail" || f.Kind == "hook-fail-and-stop" {
 			w.FailHookAt = f.At.N
+			w.FailHookStop = f.Kind == "hook-fail-and-stop"
 			continue
 		}
 		if f.Kind == "hook-cancels-caller" {
@@ -248,7 +249,7 @@ func ints(l []int) string { return strings.Trim(fmt.Sprint(l), "[]") }
 
 func TestCheck(t *testing.T) {
 	r := vp.New("C04", "fault_enumeration",
-		"modes: {libp2p-HTTP discovery, plain HTTP} x {1, 2 addresses} x {explicit sync with queried head, with explicit head, announce-triggered} x {unsegmented, segment size 1, 2} x {nothing synced before, part of the chain synced before} on a chain of L advertisements. For each mode a fault-free reference run fixes the request positions; then every fault kind (HTTP 400/403/404/500/503, connection closed, declared length longer than body, corrupt body, substituted body, empty body, stalled response, caller cancellation during a request, hook failure per block in segmented mode, caller cancellation from inside each block-hook call i.e. between requests and between segments, an address for which no client can be created) at every position, singly, in pairs over a reduced kind set (quick: 404 / 403 / 500 / connection closed / unusable address) and over the larger kind set (thorough), within one attempt and across attempt and retry, each followed by a fault-free retry on the same subscriber. Non-trivial: every faulted run. Distinct = distinct (mode, fault script).",
+		"modes: {libp2p-HTTP discovery, plain HTTP} x {1, 2 addresses} x {explicit sync with queried head, with explicit head, announce-triggered} x {unsegmented, segment size 1, 2} x {nothing synced before, part of the chain synced before} on a chain of L advertisements. For each mode a fault-free reference run fixes the request positions; then every fault kind (HTTP 400/403/404/500/503, connection closed, declared length longer than body, corrupt body, substituted body, empty body, stalled response, caller cancellation during a request, hook failure per block in segmented mode (FailSync alone, and FailSync followed by SetNextSyncCid(cid.Undef)), caller cancellation from inside each block-hook call i.e. between requests and between segments, an address for which no client can be created) at every position, singly, in pairs over a reduced kind set (quick: 404 / 403 / 500 / connection closed / unusable address) and over the larger kind set (thorough), within one attempt and across attempt and retry, each followed by a fault-free retry on the same subscriber. Non-trivial: every faulted run. Distinct = distinct (mode, fault script).",
 		"stalled responses and time-outs run in virtual time inside a synctest bubble; the horizon for 'no event will come' is 30 virtual minutes",
 		"a fault that the client masks (address fail-over, legacy path fallback) must leave all observations equal to the fault-free reference",
 		"the stream-reset retry branch needs a libp2p stream transport and is not driven",
@@ -337,6 +338,9 @@ func runMode(t *testing.T, r *vp.Recorder, m mode, thorough bool) {
 	if m.Seg > 0 {
 		for i := range ref.hooks {
 			singles = append(singles, fault{pos{"hook", -1, i}, "hook-fail"})
+			// the same failure, after which the hook also says "no next
+			// segment" the documented way (SetNextSyncCid(cid.Undef))
+			singles = append(singles, fault{pos{"hook", -1, i}, "hook-fail-and-stop"})
 		}
 	}
 	// the caller (or the announcement) names an address no client can be made for
